@@ -581,6 +581,89 @@ impl St {
                     _ => S::a("err"),
                 }
             }
+            "raw" => {
+                let a = &self.regs[l[1].idx()];
+                S::tag("ok", vec![S::a(a.verif_raw_id()), S::a(MarkerTree::verif_arena_len())])
+            }
+            "stress" => {
+                // (stress nthreads timeout_ms (texts...)) : every thread parses all texts (rotated), combines neighbours,
+                // renders, evaluates; returns per-thread observation lists
+                let n = l[1].idx();
+                let timeout = l[2].num();
+                let texts: Vec<String> = l[3].list().iter().map(|t| t.string()).collect();
+                let texts = std::sync::Arc::new(texts);
+                let (tx, rx) = std::sync::mpsc::channel();
+                let barrier = std::sync::Arc::new(std::sync::Barrier::new(n));
+                for t in 0..n {
+                    let tx = tx.clone();
+                    let texts = texts.clone();
+                    let barrier = barrier.clone();
+                    std::thread::spawn(move || {
+                        let r = catch_unwind(AssertUnwindSafe(|| {
+                            barrier.wait();
+                            let env = env_of(&S::l(vec![
+                                S::str("cpython"), S::str("3.8.1"), S::str("posix"), S::str("x86_64"), S::str("CPython"), S::str("5.4"),
+                                S::str("Linux"), S::str("v1"), S::str("3.8.1"), S::str("3.8"), S::str("linux"),
+                            ])).unwrap();
+                            let k = texts.len();
+                            let mut trees: Vec<Option<MarkerTree>> = vec![None; k];
+                            for i in 0..k {
+                                let j = (i + t * 7) % k;
+                                trees[j] = MarkerTree::from_str(&texts[j]).ok();
+                            }
+                            let mut obs: Vec<S> = Vec::new();
+                            for j in 0..k {
+                                let a = match &trees[j] { Some(a) => a.clone(), None => { obs.push(S::a("err")); continue; } };
+                                let b = trees[(j + 1) % k].clone().unwrap_or(MarkerTree::TRUE);
+                                let mut x = a.clone();
+                                x.and(b.clone());
+                                let mut y = a.negate();
+                                y.or(b.clone());
+                                let z = x.clone().simplify_extras(&[ExtraName::from_str("a").unwrap()]);
+                                let ex = [ExtraName::from_str("b").unwrap()];
+                                obs.push(S::l(vec![
+                                    tree(&a), tree(&x), tree(&y), tree(&z),
+                                    S::str(&x.try_to_string().unwrap_or_default()),
+                                    S::str(&y.try_to_string().unwrap_or_default()),
+                                    S::bool(x.evaluate(&env, &ex)), S::bool(y.evaluate(&env, &ex)),
+                                    S::bool(a.is_disjoint(&b)), S::bool(x == y), S::bool(x < y),
+                                ]));
+                            }
+                            (obs, trees)
+                        }));
+                        let _ = tx.send((t, r.ok()));
+                    });
+                }
+                drop(tx);
+                let mut results: Vec<Option<(Vec<S>, Vec<Option<MarkerTree>>)>> = (0..n).map(|_| None).collect();
+                let deadline = std::time::Instant::now() + std::time::Duration::from_millis(timeout);
+                let mut got = 0;
+                let mut panicked = 0;
+                while got < n {
+                    let left = deadline.saturating_duration_since(std::time::Instant::now());
+                    match rx.recv_timeout(left) {
+                        Ok((t, Some(r))) => { results[t] = Some(r); got += 1; }
+                        Ok((_, None)) => { panicked += 1; got += 1; }
+                        Err(_) => break,
+                    }
+                }
+                if got < n {
+                    return S::tag("deadlock", vec![S::a(got)]);
+                }
+                if panicked > 0 {
+                    return S::tag("panicked", vec![S::a(panicked)]);
+                }
+                // cross-thread: the same inputs give == markers
+                let mut cross = true;
+                let first = results[0].as_ref().unwrap();
+                for r in results.iter().skip(1) {
+                    let r = r.as_ref().unwrap();
+                    for (a, b) in first.1.iter().zip(r.1.iter()) {
+                        if a != b { cross = false; }
+                    }
+                }
+                S::tag("ok", vec![S::bool(cross), S::l(results.iter().map(|r| S::l(r.as_ref().unwrap().0.clone())).collect())])
+            }
             "ping" => S::a("pong"),
             _ => S::tag("unknown-op", vec![S::a(op)]),
         }
